@@ -87,6 +87,8 @@ var yieldFuncs = map[string]bool{
 	"GetUsers": true, "GetSigned": true, "UpsertSigned": true, "DeleteSigned": true,
 	"copyDBIntoSQLite": true, "cleanupDBData": true,
 	"unsealCA": true, "loadSignersFromPemData": true,
+	// evaluation of a TOTP guess / a password guess (C14S)
+	"decryptWithPublicKeys": true, "checkUserPassword": true, "checkPasswordAttemptLimit": true,
 }
 
 // fields of RuntimeState whose accesses are probed (sched variant)
